@@ -155,6 +155,24 @@ def run(ctx):
                     metas.append(("childAB", replay, ab))
                 elif pos <= size:
                     ctx.violation("child_after-raises", f"child_after/before raised {ab}", replay)
+            # ---- whole-node conveniences: text_content and descendants are text_between / nodes_between over everything
+            stt, tc = outcome(lambda: d.text_content)
+            if stt != "ok" or tc != from_units([x[1] for x in toks if x[0] == "u"]):
+                ctx.violation("text_content", "text_content is not the text units of the document in order",
+                              {"schema": info.name, "doc": d.to_json(), "got": str(tc)})
+
+            def desc():
+                a1, a2 = [], []
+                d.descendants(lambda n, p, par, i: a1.append([n.node_size, p, i]) or True)
+                d.nodes_between(0, size, lambda n, p, par, i: a2.append([n.node_size, p, i]) or True)
+                return a1, a2
+            std, dd_ = outcome(desc)
+            n_open = sum(1 for x in toks if x[0] in ("op", "leaf")) + sum(
+                1 for k, x in enumerate(toks) if x[0] == "u" and (k == 0 or toks[k - 1][0] != "u" or toks[k - 1][2] != x[2]))
+            if std != "ok" or dd_[0] != dd_[1] or len(dd_[0]) != n_open:
+                ctx.violation("descendants", "descendants does not visit every node of the document once, like nodes_between(0, size)",
+                              {"schema": info.name, "doc": d.to_json(), "got": str(dd_)[:300], "nodes": n_open})
+            ctx.count("whole_node_calls")
             # ---- ranges: nodes_between / text_between / range_has_mark
             al = sorted(aligned)
             for _ in range(ctx.budget(25, 80)):
@@ -204,6 +222,55 @@ def run(ctx):
                 if st5 == "ok":
                     reqs.append({"op": "blockRange", "s": info.lean_id, "doc": dj, "from": f, "to": t})
                     metas.append(("blockRange", replay, got_br))
+                if st5 == "ok" and got_br is not None:
+                    # the NodeRange's own accessors: start / end / start_index / end_index / parent, against the model
+                    # (PM/ResolveExtra.lean nodeRangeInfo) and against the token picture (start_index = number of whole
+                    # children of the ancestor before `start`, end_index likewise for `end`)
+                    def nr():
+                        x = d.resolve(f).block_range(d.resolve(t))
+                        return [x.start, x.end, x.start_index, x.end_index, x.parent.child_count]
+                    st6, got_nr = outcome(nr)
+                    ctx.count("node_range_calls")
+                    if st6 != "ok":
+                        ctx.violation("node_range-raises", f"a NodeRange accessor raised {got_nr}", replay)
+                    else:
+                        reqs.append({"op": "nodeRange", "doc": dj, "from": f, "to": t, "depth": got_br[0]})
+                        metas.append(("nodeRange", replay, got_nr))
+                        dd = got_br[0]
+                        lo = 0 if dd == 0 else anc_f[dd - 1] + 1
+                        def whole_children_before(p):
+                            n, q = 0, lo
+                            while q < p:
+                                q = (match_close(toks, q) + 1) if toks[q][0] == "op" else q + 1
+                                if toks[q - 1][0] == "u":
+                                    # a run of text units with equal marks is one child
+                                    while q < p and toks[q][0] == "u" and toks[q][2] == toks[q - 1][2]:
+                                        q += 1
+                                n += 1
+                            return n if q == p else None
+                        e_si, e_ei = whole_children_before(got_br[1]), whole_children_before(got_br[2])
+                        if got_nr[:2] != got_br[1:] or (e_si is not None and got_nr[2] != e_si) or (e_ei is not None and got_nr[3] != e_ei):
+                            ctx.violation("node_range", "NodeRange start/end/start_index/end_index disagree with the token picture",
+                                          dict(replay, got=got_nr, expected=[got_br[1], got_br[2], e_si, e_ei]))
+                # marks_across: the marks of the node after `from` that continue across to `to` (non-inclusive marks only
+                # when the node after `to` carries them too)
+                def mac():
+                    x = d.resolve(f).marks_across(d.resolve(t))
+                    return None if x is None else [[m.type.name, m.attrs] for m in x]
+                st7, got_ma = outcome(mac)
+                ctx.count("marks_across_calls")
+                if st7 != "ok":
+                    ctx.violation("marks_across-raises", f"marks_across raised {got_ma}", replay)
+                else:
+                    reqs.append({"op": "marksAcross", "s": info.lean_id, "doc": dj, "from": f, "to": t})
+                    metas.append(("marksAcross", replay, None if got_ma is None else info.marks(d.resolve(f).marks_across(d.resolve(t)))))
+                    exp_ma = expected_marks_across(schema, d, toks, f, t, anc_f, anc_t, size)
+                    if exp_ma != "skip" and (None if got_ma is None else [m[0] for m in got_ma]) != exp_ma:
+                        ctx.count("marks_across:checked")
+                        ctx.violation("marks_across", "marks_across disagrees with the documented rule read off the token picture",
+                                      dict(replay, got=got_ma, expected=exp_ma))
+                    elif exp_ma != "skip":
+                        ctx.count("marks_across:checked")
                 # separators and leaf text (string and callable forms)
                 for sep, lt_impl, lt_ref in (("\n", "", ""), ("|", "*", "*"), ("\n\n", lambda n: "" if n.type.name.startswith("h") else "[" + n.type.name + "]",
                                                                               lambda ty: "" if ty.startswith("h") else "[" + ty + "]"), ("", "#", "#")):
@@ -371,6 +438,31 @@ def expected_marks(schema, toks, pos, anc, parent_end):
         return []
     out = []
     for m in main:
+        incl = schema.marks[m[0]].spec.get("inclusive") is not False
+        if not incl and (other is None or m not in other):
+            continue
+        out.append(m[0])
+    return out
+
+
+
+def expected_marks_across(schema, d, toks, f, t, anc_f, anc_t, size):
+    """documented marks_across result (list of mark type names, or None) read off the token picture:
+    the node after a position is the node whose first token is there — or the text node containing it"""
+    def node_after(pos, anc):
+        end = size if not anc else match_close(toks, anc[-1])
+        if pos >= end:
+            return None
+        return toks[pos]
+    a = node_after(f, anc_f)
+    if a is None:
+        return None
+    if a[0] != "u" and not schema.nodes[a[1]].is_inline:
+        return None
+    nxt = node_after(t, anc_t)
+    other = None if nxt is None else nxt[-1]
+    out = []
+    for m in a[-1]:
         incl = schema.marks[m[0]].spec.get("inclusive") is not False
         if not incl and (other is None or m not in other):
             continue
